@@ -50,6 +50,9 @@ class C17(Check):
             "threads": st.sampled_from([1, 8]),
             "ext_point": st.sampled_from(faults.POINTS_BEFORE_DONE + ["before-inform-parent", "after-inform-parent"]),
             "ext_signal": st.sampled_from(sorted(EXT_SIGNALS)),
+            # Inherited signal disposition: a launcher that ignores SIGCHLD makes the kernel auto-reap
+            # the forked worker, so the parent's waitpid fails with ECHILD.
+            "sigchld_ignored": st.booleans(),
         })
 
     def setup(self, tier):
@@ -68,7 +71,13 @@ class C17(Check):
         d = ctx.dir
         inputs, args = miniprog.build(case["prog"], d)
         base = [tools.linker_path("wild"), *args, f"--threads={case['threads']}"]
-        ref = faults.run_and_reap(base + ["-o", "ref.out"], d)
+        pre = (lambda: signal.signal(signal.SIGCHLD, signal.SIG_IGN)) if case.get("sigchld_ignored") else None
+        _rr = faults.run_and_reap
+
+        def run_and_reap(*a, **kw):
+            kw.setdefault("preexec_fn", pre)
+            return _rr(*a, **kw)
+        ref = run_and_reap(base + ["-o", "ref.out"], d)
         if ref.rc != 0 or not os.path.exists(f"{d}/ref.out"):
             raise Inconclusive(f"fault-free reference link failed: {ref}")
         refbytes = open(f"{d}/ref.out", "rb").read()
@@ -111,7 +120,7 @@ class C17(Check):
                 for kind in KINDS:
                     if kind == "error" and point in NOERR_POINTS:
                         continue  # these call sites cannot propagate an injected error
-                    run = faults.run_and_reap(base + mode + ["-o", "out"], d,
+                    run = run_and_reap(base + mode + ["-o", "out"], d,
                                               env={"WILD_VERIF_CRASH": f"{point}:{kind}"})
                     judge(run, f"{kind}@{point}", fork, before_done=True)
                     nontrivial = faults.output_created_at(point) or (fork and kind in ("abort", "segv", "kill"))
@@ -123,7 +132,7 @@ class C17(Check):
                 for kind in KINDS:
                     if kind == "error":
                         continue
-                    run = faults.run_and_reap(base + ["-o", "out"], d, env={"WILD_VERIF_CRASH": f"after-inform-parent:{kind}"})
+                    run = run_and_reap(base + ["-o", "out"], d, env={"WILD_VERIF_CRASH": f"after-inform-parent:{kind}"})
                     judge(run, f"{kind}@after-inform-parent", fork, before_done=False)
                     keys.append(f"{progkey}/fork/after-inform/{kind}")
                     classes.append("fork/after-inform")
@@ -150,7 +159,7 @@ class C17(Check):
                 if not kids:
                     pz.release()
 
-            run = faults.run_and_reap(base + ["-o", "out"], d, env=pz.env(), on_started=on_started, timeout=60)
+            run = run_and_reap(base + ["-o", "out"], d, env=pz.env(), on_started=on_started, timeout=60)
         finally:
             pz.close()
         if state.get("reached") and state.get("kids"):
@@ -164,7 +173,7 @@ class C17(Check):
         # Natural failures.
         for fork in (True, False):
             mode = [] if fork else ["--no-fork"]
-            run = faults.run_and_reap(base + mode + ["--undefined=verif_missing_sym", "--no-gc-sections", "--require-defined=verif_missing_sym", "-o", "out"], d)
+            run = run_and_reap(base + mode + ["--undefined=verif_missing_sym", "--no-gc-sections", "--require-defined=verif_missing_sym", "-o", "out"], d)
             if run.rc == 0:
                 # wild accepted (option semantics may differ): then the output must be complete w.r.t. itself; skip.
                 n_exec += 1
@@ -181,7 +190,7 @@ class C17(Check):
                 elif os.path.lexists(p_):
                     os.unlink(p_)
             os.makedirs(f"{d}/isdir")
-            run = faults.run_and_reap(base + mode + ["-o", "isdir"], d)
+            run = run_and_reap(base + mode + ["-o", "isdir"], d)
             if os.path.isdir(f"{d}/isdir"):
                 n_exec += 1
                 if run.rc == 0:
@@ -194,12 +203,13 @@ class C17(Check):
             os.makedirs(f"{d}/ro", exist_ok=True)
             os.chmod(f"{d}/ro", 0o555)
             if os.geteuid() != 0:
-                run = faults.run_and_reap(base + mode + ["-o", "ro/out"], d)
+                run = run_and_reap(base + mode + ["-o", "ro/out"], d)
                 n_exec += 1
                 if run.rc == 0 and not os.path.exists(f"{d}/ro/out"):
                     raise Violation("status0-unwritable-dir", "unwritable output directory, yet exit status 0")
             os.chmod(f"{d}/ro", 0o755)
             classes.append(f"{'fork' if fork else 'nofork'}/natural")
+        classes.append("sigchld-ignored" if case.get("sigchld_ignored") else "sigchld-default")
 
         counters["executions"] = n_exec
         counters["matrix_cells"] = len(keys)
